@@ -534,6 +534,9 @@ func (r *runner) checkPop(site, res string, drains, empty, isMQ bool) {
 	case sh.closed && !drains:
 		if res != "closed" {
 			r.hit(site, "pop-after-close-must-fail", fmt.Sprintf("Pop on a closed queue holding %d items returned %s", len(sh.ctrl)+len(sh.req), res))
+			if v, ok := parseVal(res); ok { // keep the reference in step with what was really handed out
+				sh.ctrl, sh.req = remove(sh.ctrl, v), remove(sh.req, v)
+			}
 		}
 	default:
 		// must hand out the front item: control list first
@@ -706,6 +709,10 @@ func genScript(r *rng.R, kind string, n int) corr.Case {
 	next := 1
 	item := func() string { next++; return strconv.Itoa(next - 1) }
 	size, closed := 0, false // rough estimate, only steers the generator (never decides a result)
+	closeAt := -1            // at most one close, in the second half (a third of the histories never close)
+	if r.Chance(2, 3) {
+		closeAt = r.Range(n/2, n-1)
+	}
 	for i := 0; i < n; i++ {
 		var l string
 		k := r.Intn(100)
@@ -722,14 +729,17 @@ func genScript(r *rng.R, kind string, n int) corr.Case {
 			continue
 		}
 		switch {
+		case i == closeAt:
+			l = "close"
+			closed = true
 		case k < 30:
 			l = "add " + item()
 			size++
 		case k < 40 && kind != "syncq":
 			l = "prior " + item()
 			size++
-		case k < 52 && kind == "mq":
-			l = r.Pick("addc ", "addc ", "priorc ") + item()
+		case k < 56 && kind == "mq":
+			l = r.Pick("addc ", "addc ", "addc ", "priorc ") + item()
 			size++
 		case k < 70:
 			// a pop that would block is issued rarely (it costs a quiescence round), mostly when something is there
@@ -751,9 +761,8 @@ func genScript(r *rng.R, kind string, n int) corr.Case {
 				l = "popany"
 				size--
 			}
-		case k < 86:
-			l = "close"
-			closed = true
+		case k < 84 && closed:
+			l = "close" // closing again is a no-op
 		case k < 90 && kind == "mq":
 			l = r.Pick("tryclose", "tryclear", "tryclear", "cleared?")
 		case k < 94 && kind == "syncq":
